@@ -34,12 +34,32 @@ def plan_items(tier: str, seed: int, *, n_gen_quick: int, n_gen_thorough: int, n
         else:
             shards.append({"item": it, "seed": seed * 7919 + i, "n": max(20, n // 4), "matrix": "sample",
                            "time_cap": 40 if tier == "quick" else 100})
+    # quantity and size: the matrix schema with ONE field per case far beyond the sizes of the other shapes
+    for r in range(2 if tier == "quick" else 8):
+        shards.append({"item": {"kind": "matrix"}, "seed": seed * 7919 + 5000 + r, "n": 0, "matrix": "none", "large": True,
+                       "part": [r, 2 if tier == "quick" else 8], "time_cap": 45 if tier == "quick" else 150})
     return shards
 
 
 def iter_cases(b: Build, shard: dict, rng) -> Iterator[Tuple[MsgInfo, dict, str]]:
     msgs = b.user_messages()
     if not msgs:
+        return
+    if shard.get("large"):
+        g = Gen(b, rng, max_depth=2)
+        part = shard.get("part") or [0, 1]
+        per_msg = []
+        for k, mi in enumerate(msgs):
+            per_msg.append([(mi, tree, tag) for tag, tree in g.big(mi, budget=24)])
+        # interleave the messages so that a time cap does not starve the later ones
+        i = 0
+        while any(per_msg):
+            for lst in per_msg:
+                if lst:
+                    mi, tree, tag = lst.pop()
+                    if i % part[1] == part[0]:
+                        yield mi, tree, tag
+                    i += 1
         return
     g = Gen(b, rng)
     per = max(2, shard["n"] // len(msgs))
